@@ -204,5 +204,5 @@ def check(ctx):
                          "were added", ok, detail=short(mk[0]) if mk else "")
 
     # ---- shared mechanisms: the neighbour's rules run as obligations of this property
-    ctx.include("C01", "C02.R5", only=['C01.R5'])
-    ctx.rule("R5", "shared mechanisms, run as obligations of this property: the update order the totals are computed in is the one C01 proves (wiring / topological sweep).")
+    ctx.include("C01", "C02.R5", only=None)
+    ctx.rule("R5", "shared mechanisms, run as obligations of this property: the totals are cached nodes: they equal the sums of the CURRENT values only if the model's cache is coherent (all of C01: dirty flags, sweeps, wiring).")
